@@ -95,7 +95,12 @@ PathOpen(s, c) ==
         trunc == (c.oflags \div 8) % 2 = 1
         newfd == Len(s.fds)
         entry(kind) == [st |-> "open", kind |-> kind, path |-> p, pos |-> Z8, app |-> c.app, rd |-> c.rd \/ ~c.wr, wr |-> c.wr]
-    IN  IF Exists(s, p) THEN
+    IN  \* a trailing slash demands a directory: on a regular file the host refuses (ENOTDIR; EISDIR when asked to create),
+        \* on a missing name it cannot create a file; symbolic links are followed by the host (not modelled)
+        IF c.slash /\ Exists(s, p) /\ s.fs[p].kind = "link" THEN Res(s, EUNSPEC, NoOut)
+        ELSE IF c.slash /\ Exists(s, p) /\ s.fs[p].kind = "file" THEN Res(s, IF creat THEN EISDIR ELSE ENOTDIR, NoOut)
+        ELSE IF c.slash /\ ~Exists(s, p) /\ creat /\ IsDir(s, Join(IF c.abs THEN "" ELSE d.path, c.parent)) THEN Res(s, EISDIR, NoOut)
+        ELSE IF Exists(s, p) THEN
             IF creat /\ excl THEN Res(s, EEXIST, NoOut)
             ELSE IF s.fs[p].kind = "link" THEN Res(s, EUNSPEC, NoOut)          \* symbolic links are followed by the host
             ELSE IF s.fs[p].kind = "dir" THEN
@@ -212,7 +217,20 @@ PathOp(s, c) ==
         under == {c.under[j] : j \in DOMAIN c.under}
         pp == Join(d.path, c.parent)
         parentOK == IsDir(s, pp)
-    IN  CASE c.call = "mkdir" ->
+    IN  IF c.call = "readlink" /\ c.buflen = 0 THEN Res(s, EUNSPEC, NoOut)          \* a zero-sized buffer: the host decides
+        \* rename with a trailing slash on either name: ENOTDIR when an existing non-directory is renamed and the new
+        \* parent exists; which of several applicable errors the host reports first is not specified here
+        ELSE IF c.call = "rename" /\ (c.slash \/ c.slash2) THEN
+             (IF Live(s, c.fd) /\ FdOf(s, c.fd).kind = "dir" /\ Exists(s, p) /\ s.fs[p].kind \in {"file", "link"}
+                 /\ IsDir(s, Join(FdOf(s, c.fd).path, c.parent2))
+                 /\ ~(c.slash /\ s.fs[p].kind = "link")
+              THEN Res(s, ENOTDIR, NoOut) ELSE Res(s, EUNSPEC, NoOut))
+        ELSE IF c.slash /\ Exists(s, p) /\ s.fs[p].kind = "link" THEN Res(s, EUNSPEC, NoOut)
+        ELSE IF c.slash /\ Exists(s, p) /\ s.fs[p].kind = "file"
+             THEN Res(s, IF c.call \in {"mkdir", "symlink"} THEN EEXIST ELSE ENOTDIR, NoOut)
+        ELSE IF c.slash /\ ~Exists(s, p) /\ c.call = "symlink" THEN Res(s, Missing(s, pp), NoOut)
+        ELSE
+        CASE c.call = "mkdir" ->
                IF Exists(s, p) THEN Res(s, EEXIST, NoOut)
                ELSE IF ~parentOK THEN Res(s, Missing(s, pp), NoOut)
                ELSE Res([s EXCEPT !.fs = SetF(@, p, [kind |-> "dir"])], ESUCCESS, NoOut)
@@ -272,7 +290,8 @@ Call(s, c) ==
 (* invariants of the model state *)
 FsOK(s) == \A p \in DOMAIN s.fs : s.fs[p].kind = "file" =>
                \A o \in DOMAIN s.fs[p].data : LtU(o, s.fs[p].size)
-FdsOK(s) == /\ Len(s.fds) >= 4 /\ \A k \in 1..3 : s.fds[k].st = "std"
+\* descriptors 0-2 are the standard streams until they are closed; numbers are never reused
+FdsOK(s) == /\ Len(s.fds) >= 4 /\ \A k \in 1..3 : s.fds[k].st \in {"std", "closed"}
 
 
 ----------------------------------------------------------------------------
